@@ -7,10 +7,12 @@ import (
 	"fmt"
 	"net"
 	"os"
+	"sync"
 	"sync/atomic"
 	"time"
 
 	"ergo.services/ergo/gen"
+	"ergo.services/ergo/lib"
 	"ergo.services/ergo/net/handshake"
 	"ergo.services/ergo/net/registrar"
 	"ergo.services/ergo/node"
@@ -65,6 +67,32 @@ type NodeOpts struct {
 
 var portSeq int32
 
+// ---- yield-point callback of this family: counts the links that joined the pool of a connection (by peer name), then hands on
+var (
+	joinCount sync.Map // gen.Atom (peer of the connection) -> *int32
+	extraHook atomic.Pointer[func(point string, subject any)]
+)
+
+func netHook(point string, subject any) {
+	if point == "pool.join" {
+		if a, ok := subject.(gen.Atom); ok {
+			v, _ := joinCount.LoadOrStore(a, new(int32))
+			atomic.AddInt32(v.(*int32), 1)
+		}
+	}
+	if f := extraHook.Load(); f != nil {
+		(*f)(point, subject)
+	}
+}
+
+// Joined is the number of links that joined the pool of the connection to the given peer (on whichever node holds it)
+func Joined(peer gen.Atom) int {
+	if v, ok := joinCount.Load(peer); ok {
+		return int(atomic.LoadInt32(v.(*int32)))
+	}
+	return 0
+}
+
 func basePort() uint16 {
 	n := atomic.AddInt32(&portSeq, 1)
 	// below the ephemeral range, one block of 100 ports per OS process
@@ -73,6 +101,7 @@ func basePort() uint16 {
 
 // StartNode starts a node with its own registrar port (no cross-process coupling) and, unless hidden, one acceptor.
 func StartNode(o NodeOpts) (gen.Node, *relayHandshake, error) {
+	lib.SetVerifHook(netHook)
 	var opt gen.NodeOptions
 	opt.Log.DefaultLogger.Disable = true
 	opt.Log.Level = gen.LogLevelDisabled
@@ -172,7 +201,8 @@ func (p *Pair) Connect(cookie string) (gen.RemoteNode, error) {
 func (p *Pair) WaitLinks(n int, d time.Duration) bool {
 	deadline := time.Now().Add(d)
 	for time.Now().Before(deadline) {
-		if len(p.Relay.Live()) >= n {
+		// (the relay sees a link as soon as TCP is up; the pool has it only after its handshake: ask both ends)
+		if len(p.Relay.Live()) >= n && Joined(p.B.Name()) >= n && Joined(p.A.Name()) >= n {
 			// the dialer joins its links one after the other (handshake, then append to the pool): the pool is complete
 			// once the last link's handshake has gone quiet
 			quiet := 0
